@@ -20,6 +20,8 @@ import (
 	"fmt"
 	"strings"
 
+	"github.com/jech/galene/rtpconn"
+
 	"verifharness/internal/sigdrv"
 	"verifharness/internal/tr"
 )
@@ -32,6 +34,12 @@ type fz struct {
 	// ids seen in server messages (stream ids, client ids, token names)
 	ids  []string
 	toks []string
+	// lazy: outboxes are drained only now and then, so that messages stay
+	// queued while their sender goes on (in the server they are encoded
+	// later by the receiver's writer goroutine)
+	lazy  bool
+	seenW map[*sigdrv.Client][]string
+	seenA map[*sigdrv.Client][]rtpconn.VerifQueuedAction
 }
 
 func (f *fz) fail(mon, msg string) { f.t.Fail("C12", mon, msg) }
@@ -47,9 +55,14 @@ func (f *fz) after(what string, c *sigdrv.Client, res sigdrv.Result, closedBefor
 			f.fail("signalling_isolated", fmt.Sprintf("%s by client %s ended the connection of client %s", what, c.ID, x.ID))
 		}
 	}
+	f.checkQueued(what, c)
 	// harvest ids the server mentioned, so that later messages can refer
 	// to existing things
 	for _, x := range f.cs {
+		if f.lazy && !f.r.Chance(1, 6) {
+			continue
+		}
+		delete(f.seenW, x)
 		for _, m := range x.Out() {
 			if m.Id != "" && len(f.ids) < 64 {
 				f.ids = append(f.ids, m.Id)
@@ -62,6 +75,73 @@ func (f *fz) after(what string, c *sigdrv.Client, res sigdrv.Result, closedBefor
 				}
 			}
 		}
+	}
+}
+
+// isSubseq: every element of old occurs in cur, in the same order.
+func firstChanged(old, cur []string) int {
+	j := 0
+	for i, o := range old {
+		for j < len(cur) && cur[j] != o {
+			j++
+		}
+		if j == len(cur) {
+			return i
+		}
+		j++
+	}
+	return -1
+}
+
+// checkQueued: what is queued for a client - in its write channel, to be
+// encoded later by its writer goroutine, or in its action queue, to be
+// handled later by its own loop - is a VALUE: it must read the same for as
+// long as it waits, whatever the sender (or anybody else) does meanwhile.
+// A queued object that still changes is shared with another goroutine of the
+// server: a data race, and for a map `fatal error: concurrent map iteration
+// and map write`, which ends the process.
+func (f *fz) checkQueued(what string, by *sigdrv.Client) {
+	if f.seenW == nil {
+		f.seenW = map[*sigdrv.Client][]string{}
+		f.seenA = map[*sigdrv.Client][]rtpconn.VerifQueuedAction{}
+	}
+	for _, x := range f.cs {
+		if x.Dead {
+			continue
+		}
+		var cur []string
+		for _, b := range x.PeekWrites() {
+			if strings.Contains(string(b[:min(len(b), 40)]), `"type":"ice"`) {
+				continue // trickled by pion's goroutines at any time
+			}
+			cur = append(cur, string(b))
+		}
+		f.t.Checked("C12.signalling_queued_is_value")
+		if i := firstChanged(f.seenW[x], cur); i >= 0 {
+			f.fail("signalling_queued_is_value", fmt.Sprintf("a message waiting in the write channel of client %s changed after %s by client %s: it read %s (the receiver's writer goroutine encodes it concurrently: data race / concurrent map access)",
+				x.ID, what, by.ID, abbreviate([]byte(f.seenW[x][i]))))
+		}
+		f.seenW[x] = cur
+		acts := x.PeekActions()
+		var oldCore, curCore, oldAll, curAll []string
+		for _, a := range f.seenA[x] {
+			oldCore = append(oldCore, a.Core)
+			oldAll = append(oldAll, a.Core+" perms="+a.Perms)
+		}
+		for _, a := range acts {
+			curCore = append(curCore, a.Core)
+			curAll = append(curAll, a.Core+" perms="+a.Perms)
+		}
+		f.t.Checked("C12.signalling_queued_is_value")
+		if i := firstChanged(oldCore, curCore); i >= 0 {
+			f.fail("signalling_queued_is_value", fmt.Sprintf("an action waiting in the queue of client %s changed after %s by client %s: it read %s (it is handled later by another goroutine: data race / concurrent map access)",
+				x.ID, what, by.ID, abbreviate([]byte(oldCore[i]))))
+		} else if i := firstChanged(oldAll, curAll); i >= 0 {
+			// the permission list of a queued pushClientAction is the
+			// sender's live slice (known, reported): counted, not failed
+			f.t.Note("queued-action-permission-list-changed")
+		}
+		f.seenA[x] = acts
 	}
 }
 
@@ -101,6 +181,7 @@ func (f *fz) send(c *sigdrv.Client, m map[string]interface{}) sigdrv.Result {
 
 func (f *fz) pump(c *sigdrv.Client) {
 	before := f.closedNow()
+	delete(f.seenA, c)
 	res := c.Pump()
 	obs := res.Class
 	if res.Panic != nil {
@@ -542,8 +623,10 @@ func runFuzz(t *tr.Trace, r *tr.Rand, n int) {
 	sigdrv.Quiet()
 	corpus(t, r)
 	connIDs(t, r)
+	queuedValues(t, r)
 	for i := 0; i < n; i++ {
 		f := newFz(t, r, "fuzz")
+		f.lazy = i%2 == 1
 		ids := []string{"c0", "c1", "c2", "c3"}
 		for _, id := range ids[:r.Range(2, 4)] {
 			f.client(id)
